@@ -74,6 +74,24 @@ Definition minit (keys : list nat) : mstate :=
 Definition calls_for (k : nat) (s : mstate) : list nat :=
   map snd (filter (fun c => fst c =? k) (ms_calls s)).
 
+(* ---------- uses whose input cannot serve as a map key (cache.go: okayCheck fails) ----------
+   The cacher calls the function directly: no lock, no lookup, no store.  One thread = one use.
+     pc 0: before the call        pc 3: returned (u_res holds what it returned) *)
+Record uthread := mkUt { u_pc : nat; u_res : option nat }.
+Record ustate := mkUs {
+  us_calls : list (nat * nat);       (* log of real calls: (use, result), newest first *)
+  us_threads : list uthread;
+  us_next : nat
+}.
+Definition ustep (t : nat) (s : ustate) : option ustate :=
+  match nth_opt t (us_threads s) with
+  | Some (mkUt 0 _) =>
+    Some (mkUs ((t, us_next s) :: us_calls s)
+               (upd_nth t (fun _ => mkUt 3 (Some (us_next s))) (us_threads s)) (S (us_next s)))
+  | _ => None
+  end.
+Definition uinit (n : nat) : ustate := mkUs [] (repeat (mkUt 0 None) n) 0.
+
 (* ---------- the debug lock (api.go:bindFast / Bind, debug.go:captureDoBindDebugging) ---------- *)
 (* One thread = one Bind call; [fails] says whether its doBind returns an error.
      pc 0: before debugLock.RLock()          pc 1: in doBind under the read lock
